@@ -123,8 +123,11 @@ def gen_multi(seed_i, mode, tier):
     st = Streams(seed_i)
     kn = st["knobs"]
     n = kn.choice([2, 2, 3, 3, 4])
+    many = mode == "op" and kn.random() < 0.05
+    if many:
+        n = kn.randint(17, 40)   # instance-count dependent leaks (registries, bounded caches)
     scn = {"kind": "multi_actor", "mode": mode,
-           "actors": [gen_actor(st, i, small=(mode == "line")) for i in range(n)]}
+           "actors": [gen_actor(st, i, small=(mode == "line" or many)) for i in range(n)]}
     if kn.random() < 0.4:
         # several instances are handed the SAME generated configuration (one dict object when share_config)
         donors = [a for a in scn["actors"] if isinstance((a if a["role"] == "writer" else a["image_from"]).get("config"), dict)]
@@ -303,6 +306,8 @@ def run_task(task):
                 c["probe:run_with_a_reader_on_a_faulted_image"] += 1
             if scn.get("share_config"):
                 c["probe:run_with_instances_sharing_one_config_object"] += 1
+            if len(scn["actors"]) >= 17:
+                c["probe:run_with_17_or_more_instances"] += 1
             if any(a.get("poisoned") for a in scn["actors"]):
                 c["probe:run_with_a_writer_refusing_one_item"] += 1
             if mode == "op":
